@@ -290,6 +290,7 @@ pub fn finish(ctx: &Ctx, mut report: Report, violations: Vec<Violation>) -> ! {
         known_hits.len(),
         epath.display()
     );
+    sweep_scratch(true);
     std::process::exit(if unknown > 0 { 1 } else { 0 });
 }
 
@@ -368,6 +369,22 @@ impl Scratch {
         self.root.join(rel)
     }
 }
+/// Remove scratch directories of vh processes that no longer exist (runs end through `process::exit`, which
+/// skips destructors) and, at the end of a run, this process's own.
+pub fn sweep_scratch(own_too: bool) {
+    let me = std::process::id();
+    let Ok(rd) = std::fs::read_dir("/dev/shm") else { return };
+    for e in rd.flatten() {
+        let name = e.file_name().to_string_lossy().into_owned();
+        let Some(rest) = name.strip_prefix("vh-") else { continue };
+        let Some(pid) = rest.split('-').next().and_then(|p| p.parse::<u32>().ok()) else { continue };
+        let alive = std::path::Path::new(&format!("/proc/{pid}")).exists();
+        if (pid == me && own_too) || (pid != me && !alive) {
+            let _ = std::fs::remove_dir_all(e.path());
+        }
+    }
+}
+
 impl Drop for Scratch {
     fn drop(&mut self) {
         let _ = std::fs::remove_dir_all(&self.root);
